@@ -14,6 +14,7 @@ import glob
 import json
 import math
 import os
+import re
 import struct
 import zlib
 
@@ -56,6 +57,7 @@ ASSUMPTIONS = [
     "WKS protocol and service mnemonics are resolved by the host's getprotobyname / getservbyname and are outside the model (only the numeric forms, which to_text always produces; counted corr.skip.wks-mnemonic-or-non-ascii-digits); an APL item of a family other than 1/2 stores its address as hex digits exactly as written (case kept); the model's value is the octets, printed in lower case as from_wire_parser stores them, so the two agree on values from wire and modulo hex-digit case on values from text",
     "IPSECKEY / AMTRELAY keep a gateway address as the text that was given (after inet_aton validation); WfText asks for a plain token that inet_aton accepts, which inet_ntoa's output is (gatewayOk_wire4/6)",
     "texts longer than 20000 characters (the oversized-key witnesses) are checked by the oracle only (model run time)",
+    "CPython refuses int() of more than 4300 decimal digits (ValueError, which from_text wraps into SyntaxError); the model's int() has no such limit, so texts with such a digit run are checked by the oracle only (counted corr.skip.more-than-4300-digits)",
     "`encodable` is read against an origin under which the value's relative names fit (n ++ origin at most 255 octets; Name.to_wire raises NameTooLong otherwise, the documented error of the request like NeedAbsoluteNameOrOrigin): names read against the from_text origin fit it by construction; the TKEY / TSIG algorithm name is read without any origin, so the oracle falls back to the root origin for it (counted ft.encode.relative-name-does-not-fit-the-origin); a relative name of 255 octets, which no origin completes, is C01's subject (counted, not reported)",
     "informational, not a C05 violation: an unknown-family APL item whose address ends in zero octets (`!7:00/255`) round-trips through text exactly and encodes, but to_wire drops the trailing zero octets (as for families 1/2) and from_wire cannot pad them back; records compare by wire form, so the two values are equal for dnspython and for the oracle's semantic equality (wire-level loss is C02's subject)",
     "per-type proof status (proved / modelled / oracle-only) is listed in the evidence under coverage.type_status",
@@ -479,6 +481,62 @@ def generic_variants(ctx, c, rep, rdclass, rdtype, tname, wire, origin, rel, rd_
     return True
 
 
+def api_shape_checks(ctx, c, rep, rdclass, rdtype, tname, text, origin, rel, rd, rd2):
+    """direct oracles on the entry points themselves (False = a failure was reported):
+    - the equality-like relations between the from-wire value `rd` and the from-text value `rd2` are coherent
+      (== symmetric, != its negation, hash / <= / >= / set membership agree with ==), and values that print the same
+      under the default style are equal;
+    - rdclass / rdtype given as mnemonic text, as plain ints or as enum members select the same parser;
+    - the falsy empty name as origin (from_text, to_text) means `no origin`;
+    - the idna_codec keyword does not change the reading of ASCII text."""
+    try:
+        eq, eq2, ne = (rd == rd2), (rd2 == rd), (rd != rd2)
+        coherent = eq == eq2 and ne == (not eq)
+        if eq:
+            coherent = coherent and hash(rd) == hash(rd2) and rd <= rd2 and rd >= rd2 and not rd < rd2 and rd2 in {rd} and rd2 in [rd]
+        same_text = rd.to_text() == rd2.to_text()
+    except Exception as e:
+        _fail(ctx, f"C05/equality/raises/{tname}/{type(e).__name__}", f"{tname}: comparing the values of {text!r}: {e!r}", rep)
+        return False
+    ctx.count("api.equality")
+    if not coherent or (same_text and not eq):
+        _fail(ctx, f"C05/equality/{'incoherent' if not coherent else 'same-text-not-equal'}/{tname}",
+              f"{tname}: from wire {rd.to_text()!r}, from text {rd2.to_text()!r}: ==:{eq}/{eq2} !=:{ne}", rep)
+        return False
+    try:
+        ctext, ttext = dns.rdataclass.to_text(rdclass), dns.rdatatype.to_text(rdtype)
+        variants = [("mnemonics", dns.rdata.from_text(ctext, ttext, text, origin=origin, relativize=rel)),
+                    ("lower-case mnemonics", dns.rdata.from_text(ctext.lower(), ttext.lower(), text, origin=origin, relativize=rel)),
+                    ("ints", dns.rdata.from_text(int(rdclass), int(rdtype), text, origin=origin, relativize=rel)),
+                    ("enums", dns.rdata.from_text(dns.rdataclass.RdataClass(int(rdclass)), dns.rdatatype.RdataType(int(rdtype)), text,
+                                                  origin=origin, relativize=rel)),
+                    ("TYPEnnn/CLASSnnn", dns.rdata.from_text(f"CLASS{int(rdclass)}", f"TYPE{int(rdtype)}", text, origin=origin, relativize=rel)),
+                    ("idna_codec", dns.rdata.from_text(rdclass, rdtype, text, origin=origin, relativize=rel,
+                                                       idna_codec=dns.name.IDNA_2003))]
+        if origin is None:
+            variants.append(("empty-origin", dns.rdata.from_text(rdclass, rdtype, text, origin=dns.name.empty, relativize=rel)))
+        t_empty = [rd2.to_text(origin=dns.name.empty, relativize=r) for r in (True, False)]
+    except Exception as e:
+        _fail(ctx, f"C05/from_text/argument-form-raises/{tname}/{type(e).__name__}",
+              f"{tname}: {text!r} is accepted with enum arguments but an equivalent argument form raised {e!r}", rep)
+        return False
+    ctx.count("api.argument-forms")
+    ref = rd2.to_text()
+    for label, r in variants:
+        if type(r) is not type(rd2) or r.to_text() != ref or r.rdtype != rd2.rdtype or r.rdclass != rd2.rdclass:
+            _fail(ctx, f"C05/from_text/argument-form-differs/{label}/{tname}",
+                  f"{tname}: {text!r} read with {label} gives {type(r).__name__} {r.to_text()!r}, with enum arguments "
+                  f"{type(rd2).__name__} {ref!r}", rep)
+            return False
+    if t_empty != [ref, ref]:
+        _fail(ctx, f"C05/to_text/empty-origin-differs/{tname}",
+              f"{tname}: to_text(origin=<empty name>) gives {t_empty!r}, to_text() gives {ref!r}", rep)
+        return False
+    if origin is None and tname in NAME_TYPES:
+        model_corr_fromtext(ctx, c, tname, text, dns.name.empty, rel, rd2)
+    return True
+
+
 def trigger_class(tname, rdclass, rdtype, rd, origin, recheck):
     """recheck(rd') -> True when the same round trip succeeds on rd'"""
     if tname in CHARSTRING_FIELDS and tname != "GPOS":
@@ -665,6 +723,9 @@ def eval_rt(ctx: Ctx, c: dict):
                  f"{tname}: {text!r} parses to a different record ({rd2.to_text()!r}); value from wire {wire.hex()}", rep)
         return
     ctx.count("rt.ok" + (".exact" if exact_expected else ".semantic"))
+    # --- phase-5 checklist: equality relation across routes, argument types, falsy origin, idna_codec keyword
+    if not api_shape_checks(ctx, c, rep, rdclass, rdtype, tname, text, porigin, prel, rd, rd2):
+        return
     # --- a record accepted from text can be printed and encoded
     try:
         rd2.to_text()
@@ -1001,6 +1062,11 @@ def model_corr_fromtext(ctx, c, tname, text, origin, rel, rd, relto=None):
     if len(text) > 20000:
         ctx.count("corr.skip.text-longer-than-20000-characters")   # the oversized-key witnesses: oracle only (model time)
         return
+    if len(text) > 4300 and re.search(r"[0-9_]{4301}", text):
+        # CPython refuses to convert more than 4300 decimal digits (ValueError, wrapped into SyntaxError): the model's
+        # int() has no such limit; oracle only
+        ctx.count("corr.skip.more-than-4300-digits")
+        return
     generic = text.lstrip(" \t(").startswith("\\#")
     if tname in MODEL and (any(k == "nm" for _, k in MODEL[tname][0]) or (MODEL[tname][1] or ("", ""))[1] in ("nl", "gw")) and not ascii_only_names(text):
         ctx.count("corr.skip.non-ascii-with-name-field(IDNA)")
@@ -1308,13 +1374,14 @@ MISC_ATOMS = ["0123456789abcdefghijklmnopqrstuv", "2t7b4g4vsa5smi47k61mv5bv1a22b
               "99999999999m", "nanm", "infm", "1e3m", "4435.61m", "0.07m", "90000000.00m", "(", ")", ";c", "TCP", "tcp", "smtp", "0x", "0xab", "-", "!1:1.2.3.4/8",
               "1:0.0.0.0/0", "3:ab/8", "2:::/0", "!2:1::/128", "2:1::/129", "1:1.2.3.4/33", "1:1.2.3.4/+8", "+1:1.2.3.4/8", "0x1:1.2.3.4/8", "1:1.2.3.4",
               "1.2.3.4/8", "!", "!!1:1.2.3.4/8", "1:1.2.3.4/8/9", "1:2:1.2.3.4/8", "2:1:2::3/64", "65536:ab/8", "-0:ab/8", '"1:1.2.3.4/8"', "1_0:1.2.3.4/8",
-              "01:1.2.3.4/08", "1:1.2.3.4/-0", "1:1.2.3.4/", ":1.2.3.4/8", "2:::ffff:1.2.3.4/96", "1:01.2.3.4/8", "12.5\\010", "\\01012.5", "12\\010.5", "12.5\\032", "12.5\\009", "12.5\\000", "12.5\\127", "12.5\\013", "-12.\\010", ".5\\010",
+              "01:1.2.3.4/08", "1:1.2.3.4/-0", "1:1.2.3.4/", ":1.2.3.4/8", "2:::ffff:1.2.3.4/96", "1:01.2.3.4/8", "281474976710656", "0" * 4300 + "7", "1" * 4301, "9" * 4300, "0" * 4299 + "7", "12.5\\010", "\\01012.5", "12\\010.5", "12.5\\032", "12.5\\009", "12.5\\000", "12.5\\127", "12.5\\013", "-12.\\010", ".5\\010",
               "12\\010", "!7:00/255", "3:AB/8", "3:abc/8", "3:/8", "0:ab/0", "3:ab/256", "3:ab00/8", "3:0g/8", "3:\\097b/8",
               "3:ababababababababababababababababababababababababababababababababababababababababababababababababababababababababababababababab/8", "3:abababababababababababababababababababababababababababababababababababababababababababababababababababababababababababababababab/8",
               "90.00000000000000710542735760100185871124267578125", "90.000000000000007105427357601001858711242675781251", "-90.00000000000000710542735760100185871124267578125", "-90.000000000000007105427357601001858711242675781251", "90.00000000000000710542735760100185871124267578124", "90.0", "+90.", "90.00000000000001", "-90.00000000000002", "91", "180.0000000000000142108547152020037174224853515625", "180.00000000000001421085471520200371742248535156251", "-180.0000000000000142108547152020037174224853515625", "-180.00000000000001421085471520200371742248535156251", "180.0000000000000142108547152020037174224853515624", "180.0", "+180.", "180.00000000000001", "-180.00000000000002", "181", ".5", "5.", ".", "+.", "-.5", "1.2.3", "1e5", "00090.000", "-0",
               "alpn=h2", 'alpn="h2,h3"', "port=53", "no-default-alpn", "key65280=abc", "mandatory=alpn", "20240101000000", "1700000000"]
 ALL_ATOMS = NUM_ATOMS + STR_ATOMS + NAME_ATOMS + BLOB_ATOMS + ADDR_ATOMS + MISC_ATOMS
 ESC_POOL = ["\\032", "\\009", "\\010", "\\059", "\\040", "\\041", "\\034", "\\092", "\\000", "\\127", "\\200", "\\255", "\\ ", "\\;", "\\(", '\\"', "\\\\", "\\."]
+BOUNDARY_INTS = [v + d for v in (0, 2 ** 7, 2 ** 8, 2 ** 15, 2 ** 16, 2 ** 31, 2 ** 32, 2 ** 48) for d in (-1, 0, 1) if v + d >= 0]
 EDGE_ESC = ["\\010", "\\010", "\\013", "\\009", "\\032", "\\000", "\\127", "\\011", "\\012", "\\031", "\\133", "\\160"]
 CHAR_POOL = ['"', "\\", " ", "\t", ";", "(", ")", "\n", ".", "@", "0", "9", "a", "Z", "\x00", "\x7f", "\xe9", "=", ",", "-", "+", "_", ":", "/", "!"]
 
@@ -1322,7 +1389,7 @@ CHAR_POOL = ['"', "\\", " ", "\t", ";", "(", ")", "\n", ".", "@", "0", "9", "a",
 def mutate_text(rng, text):
     toks = text.split(" ")
     for _ in range(rng.choice([1, 1, 1, 2, 3])):
-        m = rng.below(11)
+        m = rng.below(12)
         i = rng.below(len(toks)) if toks else 0
         if m == 0 and toks:
             toks[i] = rng.choice(ALL_ATOMS)
@@ -1349,6 +1416,11 @@ def mutate_text(rng, text):
             t = toks[i]
             j = rng.below(len(t) + 1)
             toks[i] = t[:j] + rng.choice(ESC_POOL) + t[j:]
+        elif m == 11 and toks:
+            # a decimal token replaced by an exact field boundary (one before, at, one past 2^8 … 2^48)
+            ds = [k for k, t in enumerate(toks) if t.isdigit()]
+            if ds:
+                toks[rng.choice(ds)] = str(rng.choice(BOUNDARY_INTS))
         elif m >= 9 and toks:
             # an escaped blank / control octet at the very end (or start) of a token: validators anchored with `$`,
             # strip() and split() treat such an octet specially; printers may emit it raw
@@ -1567,6 +1639,37 @@ def gen_ft(ctx: Ctx, scale: float, rng):
             eval_case(ctx, c)
 
 
+LIMIT_INTS = [2 ** 8 - 1, 2 ** 8, 2 ** 16 - 1, 2 ** 16, 2 ** 31, 2 ** 32 - 1, 2 ** 32, 2 ** 48 - 1, 2 ** 48]
+
+
+def gen_boundary_sweep(ctx: Ctx, rng):
+    """every decimal token of one valid text per type is set to each exact field limit (2^8, 2^16, 2^32, 2^48, one
+    before and at): the accept / reject decision is compared with the model and accepted values must encode"""
+    for (rdclass, rdtype, tname, gen) in TYPES:
+        if tname == "OPT":
+            continue
+        text = None
+        for _ in range(6):
+            wire = gen(G(rng, [b""]))
+            try:
+                text = dns.rdata.from_wire(rdclass, rdtype, wire, 0, len(wire)).to_text()
+                break
+            except Exception:
+                text = None
+        if text is None:
+            continue
+        toks = text.split(" ")
+        for k, t in enumerate(toks):
+            if not t.isdigit():
+                continue
+            for v in LIMIT_INTS:
+                t2 = " ".join(toks[:k] + [str(v)] + toks[k + 1:])
+                c = {"kind": "ft", "type": tname, "text": t2, "origin": None, "rel": 1}
+                ctx.case(("ft-limit", tname, k, v), sample=None)
+                ctx.count("ft.limit-sweep")
+                eval_case(ctx, c)
+
+
 # per-type status of the Lean side (mirrors C05.provedTypes / Model.modelledTypes; the oracle covers every type)
 PROVED = ["A", "AAAA", "NS", "CNAME", "PTR", "DNAME", "NSAP-PTR", "MX", "AFSDB", "RT", "KX", "LP", "PX", "SRV", "RP", "SOA", "TXT", "SPF", "AVC",
           "NINFO", "RESINFO", "WALLET", "HINFO", "X25", "ISDN", "NAPTR", "CAA", "URI", "DS", "DLV", "CDS", "TLSA", "SMIMEA", "SSHFP", "ZONEMD", "DNSKEY",
@@ -1607,6 +1710,7 @@ def run(ctx: Ctx):
     gen_ft(ctx, scale, rng.fork(2))
     gen_generic_compressed(ctx, scale, rng.fork(3))
     gen_utf8_txt(ctx, scale, rng.fork(4))
+    gen_boundary_sweep(ctx, rng.fork(5))
 
 
 def search(ctx: Ctx):
